@@ -27,7 +27,7 @@ func init() {
 		nil,
 		runC11)
 	register("C17",
-		"CONST: NumPassphraseEntropyBytes*8 >= NumPassphraseWords*aezeed.BitsPerWord and NumPassphraseEntropyBytes = ceil(that/8). CODEC-SIB: PassphraseEntropyToMnemonic and PassphraseMnemonicToEntropy read/write with the same constant object aezeed.BitsPerWord, iterate NumPassphraseWords times, use the paired tables aezeed.DefaultWordList / aezeed.ReverseWordMap, the writer is sized by NumPassphraseEntropyBytes, and NewPassphraseEntropy normalises by the round trip. SIDDIR: the boolean direction flags passed to GetSID for the receive and send streams are complementary within client and within server and mirrored between them (client.send = server.receive, client.receive = server.send); Refresh* copies both stream IDs unchanged; GetSID returns its input on one leg and XORs a non-zero constant into one byte on the other (the two directions never share a stream); ConnData.SID is the only producer of the sid used by Server/Client and hashes (SHA-512) the whole passphrase entropy or the HMAC of the ECDH output. SIDFRESH (as C11): Accept and Dial recompute that SID on every call after waiting for the previous connection, hand exactly that value to the constructor and drop the old connection when it changed - so after pairing both sides are on the key-derived streams. SIDDIR stream direction: each relay-facing function of mailbox (classified by the relay API it calls or the ClientConnTransport slot it implements) touches only the stream ID of its own direction. SIDFRESH also: DoHandshake publishes the remote key under the negotiated version >= 2; ConnData.SetRemote stores the key on every successful return; every handshake machine is configured with cfg.ConnData.HandshakePattern(), which returns XX exactly while no remote key is stored. CODEC-SIB also: NewClientWebsocketConn cuts the typed phrase with strings.Split/Fields over the whole phrase and copies the pieces into the word array. SIDDIR also: every fallible step of ConnData.SID has its error tested and returned. Not decided: bit-exact inversion of the bit-stream codec (bstream semantics, word list contents), ECDH symmetry, hash collision freedom - trusted.",
+		"CONST: NumPassphraseEntropyBytes*8 >= NumPassphraseWords*aezeed.BitsPerWord and NumPassphraseEntropyBytes = ceil(that/8). CODEC-SIB: PassphraseEntropyToMnemonic and PassphraseMnemonicToEntropy read/write with the same constant object aezeed.BitsPerWord, iterate NumPassphraseWords times, use the paired tables aezeed.DefaultWordList / aezeed.ReverseWordMap, the writer is sized by NumPassphraseEntropyBytes, and NewPassphraseEntropy normalises by the round trip. SIDDIR: the boolean direction flags passed to GetSID for the receive and send streams are complementary within client and within server and mirrored between them (client.send = server.receive, client.receive = server.send); Refresh* copies both stream IDs unchanged; GetSID returns its input on one leg and XORs a non-zero constant into one byte on the other (the two directions never share a stream); ConnData.SID is the only producer of the sid used by Server/Client and hashes (SHA-512) the whole passphrase entropy or the HMAC of the ECDH output. SIDFRESH (as C11): Accept and Dial recompute that SID on every call after waiting for the previous connection, hand exactly that value to the constructor and drop the old connection when it changed - so after pairing both sides are on the key-derived streams. SIDDIR stream direction: each relay-facing function of mailbox (classified by the relay API it calls or the ClientConnTransport slot it implements) touches only the stream ID of its own direction. SIDFRESH also: DoHandshake publishes the remote key under the negotiated version >= 2; ConnData.SetRemote stores the key on every successful return; every handshake machine is configured with cfg.ConnData.HandshakePattern(), which returns XX exactly while no remote key is stored. CODEC-SIB also: NewClientWebsocketConn cuts the typed phrase with strings.Split/Fields over the whole phrase and copies the pieces into the word array. SIDDIR also: every fallible step of ConnData.SID has its error tested and returned. CODEC-SIB also: PassphraseEntropyToMnemonic fails only with the bit reader's own error (or under index >= len(DefaultWordList)): total over the 11-bit groups. Not decided: bit-exact inversion of the bit-stream codec (bstream semantics, word list contents), ECDH symmetry, hash collision freedom - trusted.",
 		[]string{"aezeed.DefaultWordList has 2^BitsPerWord distinct words and ReverseWordMap is its inverse; bstream reads and writes bits MSB first"},
 		runC17)
 }
